@@ -2,8 +2,34 @@
 import symdb
 
 
+def _has_star(prog):
+    def items(p):
+        for t in p:
+            if t.k == "select":
+                for nm, e in t.items:
+                    if nm is None and e.k == "star":
+                        return True
+            for sub in (getattr(t, "inner", None), getattr(t, "right", None)):
+                if isinstance(sub, list) and items(sub):
+                    return True
+        return False
+    return items(prog.main) or any(items(p) for _, p in list(prog.lets) + list(prog.into))
+
+
 def c_prog(driver, prog, target="sql.sqlite", k=2, timeout_ms=20000, schema=None):
     o = symdb.check_program(prog, driver, target=target, k=k, timeout_ms=timeout_ms, schema=schema)
+    if o.status == "violation" and _has_star(prog):
+        # `rel.*` next to columns of rel: undocumented whether the star repeats them; a violation must hold under both readings
+        prog.star_mode = "dedup"
+        try:
+            o2 = symdb.check_program(prog, driver, target=target, k=k, timeout_ms=timeout_ms, schema=schema)
+        finally:
+            prog.star_mode = "all"
+        if o2.status != "violation":
+            o = o2
+            o.note = (getattr(o, "note", None) or "") + " (star read as 'each column once')"
+        elif getattr(o, "kind", "") == "arity" and getattr(o2, "kind", "") != "arity":
+            o = o2          # both readings fail: report the closer one
     o.features = sorted(getattr(prog, "features", set()) | {"target:" + target})
     return o
 
